@@ -174,7 +174,7 @@ CLAIMS = {
         "its uses); Scaler.transform's arithmetic with fitted arrays is dominated by a raising dimension check; 30+ role guards exist, raise under the "
         "right condition and precede the use they protect: n_modes sanity (both SVD wrappers), init_rank_reduction range, rank, negative alpha, unknown "
         "solver, item counts, transform dimensions / feature coordinates, empty dims, MultiIndex, name clash, 2-D dims, dim type, 'X or Y required', "
-        "cross-set sample count, concatenator and multi-set view validation. Every fitted array Scaler.transform combines with the data is covered by the dimension check; init_rank_reduction is validated exactly when n_modes is a variance fraction; the bounds of the n_modes validation (int < 1, float outside (0, 1], other strings) and the Stacker's container-type check are in place. In every _inverse_transform_algorithm the stored array contracted with a score argument is selected by that argument's own mode labels. Feature labels of transform data are compared in order with the recorded ones. A MultiIndex along a feature dimension is compared (in order) with the fitted one before it is replaced by positions; feature labels are compared as index labels; n_modes is validated at construction or at fit by every single-set model; multi-set CCA transform checks the number of views. At the public inverse_transform entry a per-mode entry that meets the given scores arithmetically is selected by the scores' own mode labels first (an aligned product would inner-join unknown modes away).",
+        "cross-set sample count, concatenator and multi-set view validation. Every fitted array Scaler.transform combines with the data is covered by the dimension check; init_rank_reduction is validated exactly when n_modes is a variance fraction; the bounds of the n_modes validation (int < 1, float outside (0, 1], other strings) and the Stacker's container-type check are in place. In every _inverse_transform_algorithm the stored array contracted with a score argument is selected by that argument's own mode labels. Feature labels of transform data are compared in order with the recorded ones. A MultiIndex along a feature dimension is compared (in order) with the fitted one before it is replaced by positions; feature labels are compared as index labels; n_modes is validated at construction or at fit by every single-set model; multi-set CCA transform checks the number of views. At the public inverse_transform entry a per-mode entry that meets the given scores arithmetically is selected by the scores' own mode labels first (an aligned product would inner-join unknown modes away). Before the scaling arithmetic the data's index along every fitted dimension is compared (order-sensitively) with the fitted arrays' index, and Dataset input is validated variable by variable; a dimension check that reads bookkeeping which is not serialised does not count as covering the fitted arrays.",
         "note": "Necessary structural clauses only. Not decided: which exception type; that no numbers come out for every malformed call; rejections that "
         "xarray itself performs (unknown dimension names / mode labels).",
         "technique": "must-precede (dominator) analysis of guards, raise-condition role matching, call-site binding",
@@ -209,4 +209,4 @@ for _p in ["C01", "C02", "C03", "C04", "C05", "C06", "C08", "C09", "C10", "C11",
     if _p not in CLAIMS:
         NOT_APPLICABLE[_p] = PENDING
 
-FIX_COMMITS: list[str] = ['66ece4b', 'ed076f6', '9a78ace', 'cf5abcd', '44e0064', '50d9a93', '83c3286', 'a1f053b', 'f5a50f1', 'f91da99', '5bc6ab8', '535dacf', '4fafdb0', 'f5c4825', 'b539edf', '6aa614c', '5bf1e4c', '7d40fdd', '06b897f', '456072f', '3fe121c', '76a2a6e', '3fca62d', '40b40f5', '26afd29', '1cd4dd0', 'a73d8de', 'ecd49ca', '80098d5', 'ed1bc9f', '8ac783d', '6ca6be5', '0e40cc3', '2b55b4e', 'caffa9a', 'a8e7280', 'cadc9b9', '4611075', 'b9d4fb1']
+FIX_COMMITS: list[str] = ['66ece4b', 'ed076f6', '9a78ace', 'cf5abcd', '44e0064', '50d9a93', '83c3286', 'a1f053b', 'f5a50f1', 'f91da99', '5bc6ab8', '535dacf', '4fafdb0', 'f5c4825', 'b539edf', '6aa614c', '5bf1e4c', '7d40fdd', '06b897f', '456072f', '3fe121c', '76a2a6e', '3fca62d', '40b40f5', '26afd29', '1cd4dd0', 'a73d8de', 'ecd49ca', '80098d5', 'ed1bc9f', '8ac783d', '6ca6be5', '0e40cc3', '2b55b4e', 'caffa9a', 'a8e7280', 'cadc9b9', '4611075', 'b9d4fb1', 'd36c800']
